@@ -242,7 +242,7 @@ func matchWire(out []byte, exp []expOut) string {
 
 func TestC08_CloseAndPingStateMachine(t *testing.T) {
 	rec := evid.For("C08")
-	rec.SetRule("rapid histories (<=25 steps) over peer events {data (1-2 fragments), ping, pong, close(valid code+reason), close(empty), close(1-byte | invalid code | bad UTF-8 reason), framing violation, transport EOF, transport error, truncated frame} and local calls {NextFrame, AsyncNextFrame, NextMessage, AsyncNextMessage, Write, AsyncWrite, WriteFrame, AsyncWriteFrame, Flush, AsyncFlush, Close, AsyncClose} on a scripted transport; reference RFC 6455 endpoint model predicts every read result, every refused/accepted write, the allowed State() set and the exact outbound frame list (parsed by an independent parser): one Pong per Ping while open with identical payload in order, one Close per connection echoing the code / 1000 / 1002, nothing but optional pongs after it; non-trivial = the history reaches closing-by-us or closed-by-peer and has >=1 event after the transition, OR >=2 pings answered while open with application frames written in between; TestC08_CloseReplyCodes: a peer Close sent to an open stream with status codes swept over 0..65535 (weighted to 999..1016, 2999..3001, 4999..5001; 1014 left out) in the forms code / code+reason / code+invalid UTF-8 / empty / one byte, read through each API: exactly one Close reply with the echoed code when that code may appear on the wire, 1000 for the empty payload, 1002 otherwise, then State()!=active and Write refused; non-trivial there = a 1002 reply or a reserved code (1004/1005/1006/1015); distinct = hash of the history")
+	rec.SetRule("rapid histories (<=25 steps) over peer events {data (1-2 fragments, with 0..2 pings/pongs between the fragments), ping, pong, close(valid code+reason), close(empty), close(1-byte | invalid code | bad UTF-8 reason), framing violation, transport EOF, transport error, truncated frame} and local calls {NextFrame, AsyncNextFrame, NextMessage, AsyncNextMessage, Write, AsyncWrite, WriteFrame, AsyncWriteFrame, Flush, AsyncFlush, Close, AsyncClose} on a scripted transport; reference RFC 6455 endpoint model predicts every read result, every refused/accepted write, the allowed State() set and the exact outbound frame list (parsed by an independent parser): one Pong per Ping while open with identical payload in order, one Close per connection echoing the code / 1000 / 1002, nothing but optional pongs after it; a blocking read never returns to the transport for more bytes while a reply it queued is unsent; non-trivial = the history reaches closing-by-us or closed-by-peer and has >=1 event after the transition, OR >=2 pings answered while open with application frames written in between; TestC08_CloseReplyCodes: a peer Close sent to an open stream with status codes swept over 0..65535 (weighted to 999..1016, 2999..3001, 4999..5001; 1014 left out) in the forms code / code+reason / code+invalid UTF-8 / empty / one byte, read through each API: exactly one Close reply with the echoed code when that code may appear on the wire, 1000 for the empty payload, 1002 otherwise, then State()!=active and Write refused; non-trivial there = a 1002 reply or a reserved code (1004/1005/1006/1015); distinct = hash of the history")
 	rec.Assume("the control callback performs no stream calls; one read and one write outstanding at a time; after an injected non-EOF transport error the history stops (behaviour unspecified by the property)")
 	doubleCloseKnown := known.Listed("C08", "second-close-after-violation")
 	vt.CheckSteps(t, 2000, 18, func(t *rapid.T) {
@@ -350,6 +350,15 @@ func TestC08_CloseAndPingStateMachine(t *testing.T) {
 				if len(p) > 1 && rapid.Bool().Draw(t, "frag") {
 					c := rapid.IntRange(0, len(p)).Draw(t, "fcut")
 					feed(inFrame{kind: "data", f: rfc6455.Frame{Fin: false, Opcode: op, Payload: p[:c], LenBytes: -1}})
+					// control frames may be injected in the middle of a fragmented message (RFC 6455 5.4)
+					for i, nb := 0, rapid.SampledFrom([]int{0, 0, 1, 1, 2}).Draw(t, "between"); i < nb; i++ {
+						if rapid.IntRange(0, 3).Draw(t, "betweenKind") == 0 {
+							feed(inFrame{kind: "pong", f: rfc6455.Frame{Fin: true, Opcode: rfc6455.OpPong, Payload: smallPayload("blen", 20), LenBytes: -1}})
+						} else {
+							feed(inFrame{kind: "ping", f: rfc6455.Frame{Fin: true, Opcode: rfc6455.OpPing, Payload: smallPayload("blen", 125), LenBytes: -1}})
+						}
+						kind = "data+control-between-fragments"
+					}
 					feed(inFrame{kind: "data", f: rfc6455.Frame{Fin: true, Opcode: rfc6455.OpContinuation, Payload: p[c:], LenBytes: -1}})
 				} else {
 					feed(inFrame{kind: "data", f: rfc6455.Frame{Fin: true, Opcode: op, Payload: p, LenBytes: -1}})
@@ -442,6 +451,15 @@ func TestC08_CloseAndPingStateMachine(t *testing.T) {
 				}
 				return &rfc6455.Frame{Fin: f.IsFIN(), Opcode: byte(f.Opcode()), Payload: append([]byte(nil), f.Payload()...)}
 			}
+			// A blocking read that goes back to the transport for more bytes waits for the peer; it must not do so while it
+			// holds a reply it has not sent (a peer that waits for its Pong before it sends the rest would wait for ever).
+			heldAtWait := 0
+			ms.OnSyncRead = func() {
+				if q := s.Pending(); q > heldAtWait {
+					heldAtWait = q
+				}
+			}
+			defer func() { ms.OnSyncRead = nil }()
 			switch api {
 			case "NextFrame":
 				f, err := s.NextFrame()
@@ -468,6 +486,9 @@ func TestC08_CloseAndPingStateMachine(t *testing.T) {
 				deliverUntil(&done, api)
 			}
 			trace = append(trace, fmt.Sprintf("%s=%v", api, gotErr))
+			if heldAtWait > 0 && (api == "NextFrame" || api == "NextMessage") {
+				t.Fatalf("%s went back to the transport for more bytes while %d frame(s) it had queued (pongs / close reply) were still unsent: the answer to a Ping must not depend on the peer sending more first; trace=%v", api, heldAtWait, trace)
+			}
 			if !exp.terminal && pendingCloseDone == nil {
 				ms.DeliverAll(1000)
 				if fs, _ := rfc6455.ParseAll(ms.Out); len(fs) < queuedBefore {
